@@ -263,7 +263,11 @@ func ruleGLOBALS(w *World, r *Report, pkgFilter map[string]bool) {
 
 const ruleGLOBText = "volume discovery neither interprets the index file's base name as a pattern nor swallows listing errors: in the library packages no non-constant string reaches the pattern operand of filepath.Glob/Match or path.Match, and an implementation of fileIO.FindWithPrefixAndSuffix lists the directory with an error-returning API and compares names with strings.HasPrefix/HasSuffix on its own prefix/suffix parameters"
 
-func ruleGLOB(w *World, r *Report) {
+type globOpts struct{ pattern, lists, literal, complete bool }
+
+var globAll = globOpts{true, true, true, true}
+
+func ruleGLOB(w *World, r *Report, o globOpts) {
 	r.rule("GLOB", ruleGLOBText)
 	patternFns := map[string]bool{"path/filepath.Glob": true, "path/filepath.Match": true, "path.Match": true}
 	nCalls := 0
@@ -277,6 +281,9 @@ func ruleGLOB(w *World, r *Report) {
 			nCalls++
 			key := fmt.Sprintf("%s:%s#%d", shortName(fn), f.String(), k)
 			k++
+			if !o.pattern {
+				continue
+			}
 			if _, ok := constString(c.Common().Args[0]); ok {
 				r.ok("GLOB", key, w.ipos(c), "constant pattern")
 			} else {
@@ -314,6 +321,7 @@ func ruleGLOB(w *World, r *Report) {
 			}
 		}
 		switch {
+		case !o.lists:
 		case lists == "":
 			r.bad("GLOB", key+":lists", w.pos(fn.Pos()), "the implementation does not list the directory with an error-returning API (ReadDir)")
 		default:
@@ -321,6 +329,9 @@ func ruleGLOB(w *World, r *Report) {
 		}
 		// completeness: the append of a match may depend only on the name tests
 		for _, b := range fn.Blocks {
+			if !o.complete {
+				break
+			}
 			for _, in := range b.Instrs {
 				c, ok := in.(*ssa.Call)
 				if !ok || isBuiltinCall(c, "append") == nil {
@@ -348,6 +359,9 @@ func ruleGLOB(w *World, r *Report) {
 					}
 				}
 			}
+		}
+		if !o.literal {
+			continue
 		}
 		if hasPrefix && hasSuffix {
 			r.ok("GLOB", key+":literal", w.pos(fn.Pos()), "names are compared literally with strings.HasPrefix(name, <prefix>) and strings.HasSuffix(name, suffix)")
